@@ -15,10 +15,10 @@ class C04(Prop):
                  "g_del_other_author", "g_k5_tag_short", "g_k5_tag_name", "g_full_scan", "g_index_over_limit",
                  "event_cache.go", "g_done", "g_since_reject", "g_until_reject")
     rule = ("histories of insertions into the real EventCache drawn from a pool of 4..17 events over 3 authors, all event "
-            "classes, d values absent/empty/a/b, timestamps 0..6 (many ties), deletion requests referencing past and future "
+            "classes, d values absent/empty/a/b, timestamps 0..6 (many ties; in one pool of eight a third of the events have a created_at at the ends of int64: MinInt64, -9e18, -1, 2^31, 9e18, MaxInt64 ...), deletion requests referencing past and future "
             "events, themselves, other requests, other authors' events and addressable addresses, re-offered events, "
             "capacity 1..6 or 100; after every insertion the verdict, Len, the match-everything listing, registry and tree "
-            "sizes (hooks) and the answers to filter lists are recorded. Non-trivial: the history contains a replacement, a rejection and a capacity eviction; distinct = distinct JSON")
+            "sizes (hooks) are recorded, and after one insertion in five the answer to a list of 1..3 filters (ids, authors, kinds, tags, since, until, limit) as well: a read must leave the store as it found it. Non-trivial: the history contains a replacement, a rejection and a capacity eviction; distinct = distinct JSON")
     trusted_base = COMMON_TRUSTED
     assumptions = [
         "ids are functional in a history (two events with one id are the same event): what SHA-256 ids give behind the gate",
